@@ -61,8 +61,8 @@ var Check = &run.Check{
 	ID:    "C18",
 	Level: "exploration",
 	Rule: "case index mod 15 selects the sub-check. 0-9: synthetic call model (modelgen: random/dag/tree/chain/cycle/fan-in/mutual/dense graphs with repeated calls, self calls, calls without receiver type, " +
-		"calls to external and to undeclared methods of project classes, object creations, overloaded names (one full name declared twice, called), classes in the default package (empty package name); in every second model call records carry real-looking positions: one caller calls the SAME callee 2-3 times on ONE line at different columns, adjacent or with another call in between) every third model gets CALLED case twins (method getUrl/getURL in one class, or class IoUtil/IOUtil with a method of the same name) with different counts) -> count.BuildCallMap, and string_helper.SortWord over it five times in one process (same rows, same order), every Nth through `coca count -d deps.json` twice (+ `-t k`). " +
-		"10-11: generated Java project (1-6 files, one class each: *Util/*Utils classes with static methods only, also named *ServiceUtil(s)/ServiceUtils/WebServiceUtil, *UtilImpl/*UtilsV2/*UtilsImpl/*UtilHelper and Util*, *Service classes, ordinary and abstract classes; about one class in seven has no package line; about one class in three declares an overload (same name, one more parameter) that the planted calls also use; methods with every subset of " +
+		"calls to external and to undeclared methods of project classes, object creations, overloaded names (one full name declared twice, called), constructor functions that make calls, classes in the default package (empty package name); in every second model call records carry real-looking positions: one caller calls the SAME callee 2-3 times on ONE line at different columns, adjacent or with another call in between) every third model gets CALLED case twins (method getUrl/getURL in one class, or class IoUtil/IOUtil with a method of the same name) with different counts) -> count.BuildCallMap, and string_helper.SortWord over it five times in one process (same rows, same order), every Nth through `coca count -d deps.json` twice (+ `-t k`). " +
+		"10-11: generated Java project (1-6 files, one class each: *Util/*Utils classes with static methods only, also named *ServiceUtil(s)/ServiceUtils/WebServiceUtil, *UtilImpl/*UtilsV2/*UtilsImpl/*UtilHelper and Util*, *Service classes, ordinary and abstract classes; about one class in seven has no package line; about one class in three declares an overload (same name, one more parameter) that the planted calls also use; about one class in three has a constructor whose body starts with such calls; first parameters of methods and constructors may carry @Nullable/@CheckForNull (says nothing about the method: negatives); methods with every subset of " +
 		"{public|private|protected, static, final, synchronized} or {public|protected, abstract} in random order, annotations before or between the keywords; bodies returning null as the only/first/middle/last return " +
 		"statement, nested in for/while/try/switch/else; @Nullable/@CheckForNull as only/first/middle/last annotation or after a keyword; both annotations on one method; annotation plus return null; null returned on two paths; the only null being the else / then / innermost else branch of a returned conditional expression (`return ok ? v : null;`), with a null-free conditional return as control; decoys: null outside return statements, @Nonnull, boolean `return p == null`; " +
 		"bodies start with unqualified calls of same-class methods, one per line or the same callee 2-3 times on one line) " +
@@ -72,7 +72,7 @@ var Check = &run.Check{
 		"names: >= 3 words of which one is a stop word; distinct = hash of (kind, structure without names)",
 	Assumptions: []string{
 		"overloads share one full name (package.Class.method) and the count map is keyed by that name, so for a name declared more than once the expected count is the number of recorded call sites naming it - every call site resolves to exactly one method, hence the sum over the declarations cannot exceed it; which overload a site means is not decided. Two nullable overloads of one name are not generated. Class simple names are unique inside a project",
-		"generated classes have no constructors, no inner types, and there are no interfaces or enums: whether those count as methods/classes is not settled by the statement",
+		"generated classes have no inner types, and there are no interfaces or enums: whether those count as classes is not settled by the statement. About one class in three has ONE constructor (it makes calls; its first parameter may be annotated): whether a constructor is a method is not settled either, so MethodCount may be anything from the number of methods to methods + constructors; a constructor is never nullable and never a counted callee (uses of constructor functions in synthetic models are turned into object creations)",
 		"a utility class is generated only in the unambiguous shape (the name has the word Util/Utils as a camel-case segment - last, first or in the middle as in DateUtilImpl - and the class has nothing but static methods); every other class has an instance method and no 'util' in its name",
 		"return expressions never contain an identifier or string with the letters 'null'; a returned conditional expression has the null literal only as a whole branch and never in its condition (guards such as `p == null ? \"\" : p` are not generated: whether coca should list them is not what the statement settles)",
 		"for generated projects the expected reference counts are the call entries the full pass RECORDED (which receiver a call resolves to is C02's subject); the planted same-line calls are only counted to show that such entries occur",
@@ -151,14 +151,15 @@ func parseTable(out string) (header []string, rows [][]string) {
 
 func runModel(c *run.Ctx, o *run.Outcome, seq int) {
 	r := c.Rng
-	opts := modelgen.Opts{MaxClasses: 8, MaxMethods: 40, MaxOut: 6, Quotes: true, DefaultPkg: true, Overloads: true}
+	opts := modelgen.Opts{MaxClasses: 8, MaxMethods: 40, MaxOut: 6, Quotes: true, DefaultPkg: true, Overloads: true, Ctors: true}
 	if r.Chance(1, 2) {
-		opts = modelgen.Opts{MaxClasses: 3, MaxMethods: 8, MaxOut: 4, Quotes: false, DefaultPkg: true, Overloads: true}
+		opts = modelgen.Opts{MaxClasses: 3, MaxMethods: 8, MaxOut: 4, Quotes: false, DefaultPkg: true, Overloads: true, Ctors: true}
 	}
 	if seq < 20 {
-		opts = modelgen.Opts{MaxClasses: 2, MaxMethods: 4, MaxOut: 3, Quotes: false, DefaultPkg: true, Overloads: true}
+		opts = modelgen.Opts{MaxClasses: 2, MaxMethods: 4, MaxOut: 3, Quotes: false, DefaultPkg: true, Overloads: true, Ctors: true}
 	}
 	m := modelgen.Generate(r.Fork(), opts)
+	ctorCallsBecomeCreations(m)
 	sameLineGroups, sameLineSites := 0, 0
 	if seq%2 == 1 || seq < 20 {
 		sameLineGroups, sameLineSites = shareLines(r.Fork(), m)
@@ -213,6 +214,17 @@ func runModel(c *run.Ctx, o *run.Outcome, seq int) {
 			if want[k] > 0 {
 				o.Count("model_overloaded_names_called", 1)
 				o.Count("model_call_sites_resolving_to_overloaded_names", want[k])
+			}
+		}
+	}
+	for _, me := range m.Methods() {
+		if !me.IsCtor {
+			continue
+		}
+		o.Count("model_constructor_functions", 1)
+		for _, cl := range me.Calls {
+			if cl.Class != "" && want[cl.Full()] > 0 {
+				o.Count("model_call_sites_inside_constructors_resolving_to_declared", 1)
 			}
 		}
 	}
@@ -353,6 +365,29 @@ func runModel(c *run.Ctx, o *run.Outcome, seq int) {
 	}
 	if c.Index < 64 {
 		o.Sample = map[string]interface{}{"kind": "model", "model": m.Describe(), "expected_counts": want, "observed_counts": got}
+	}
+}
+
+// ctorCallsBecomeCreations: modelgen lets any function be a call target, also a constructor function (full name
+// pkg.C.C). Real models record a use of a constructor as an object creation (pkg.C, empty function name), so
+// such calls are rewritten into creations; whether pkg.C.C is a "project method" with a count of its own is
+// thereby not asserted either way. The calls written INSIDE constructors stay as they are.
+func ctorCallsBecomeCreations(m *modelgen.Model) {
+	ctor := map[string]bool{}
+	for _, me := range m.Methods() {
+		if me.IsCtor {
+			ctor[me.Full()] = true
+		}
+	}
+	if len(ctor) == 0 {
+		return
+	}
+	for _, me := range m.Methods() {
+		for i := range me.Calls {
+			if me.Calls[i].Class != "" && me.Calls[i].Name != "" && ctor[me.Calls[i].Full()] {
+				me.Calls[i].Name = ""
+			}
+		}
 	}
 }
 
@@ -563,10 +598,10 @@ func runCount(c *run.Ctx, o *run.Outcome, dir string, args ...string) ([]oracle.
 
 func runProject(c *run.Ctx, o *run.Outcome, seq int) {
 	r := c.Rng
-	opts := evalgen.Opts{MaxClasses: 6, MaxMethods: 7, NullCompare: true, DefaultPkg: true, Overloads: true}
+	opts := evalgen.Opts{MaxClasses: 6, MaxMethods: 7, NullCompare: true, DefaultPkg: true, Overloads: true, Ctors: true, ParamAnnos: true}
 	if seq < 16 || seq%4 == 0 {
 		// small cases give small witnesses: the first violating case of a signature is the one recorded
-		opts = evalgen.Opts{MaxClasses: 1, MaxMethods: 2, NullCompare: true, DefaultPkg: true, Overloads: true}
+		opts = evalgen.Opts{MaxClasses: 1, MaxMethods: 2, NullCompare: true, DefaultPkg: true, Overloads: true, Ctors: true, ParamAnnos: true}
 	}
 	p := evalgen.Generate(r.Fork(), opts)
 	if err := evalgen.SelfCheck(p); err != nil {
@@ -587,6 +622,9 @@ func runProject(c *run.Ctx, o *run.Outcome, seq int) {
 		for _, m := range cl.Methods {
 			s += m.ModKey() + "/" + m.NullReturn + "/" + m.AnnoPos + "/" + strconv.Itoa(len(m.Calls)) + "." + strconv.Itoa(m.SameLineCalls) + ";"
 			o.Count("project_methods", 1)
+			if m.ParamAnno != "" && !m.Nullable() {
+				o.Count("project_non_nullable_methods_with_annotated_parameter", 1)
+			}
 			if m.OverloadOf != "" {
 				o.Count("project_overloaded_names", 1)
 			}
@@ -620,6 +658,13 @@ func runProject(c *run.Ctx, o *run.Outcome, seq int) {
 			}
 			if m.NullDecoy && !m.Nullable() {
 				o.Count("project_decoy_null_outside_return", 1)
+			}
+		}
+		if cl.Ctor != nil {
+			o.Count("project_constructors", 1)
+			s += "ctor" + strconv.Itoa(len(cl.Ctor.Calls)) + cl.Ctor.ParamAnno
+			if cl.Ctor.ParamAnno != "" {
+				o.Count("project_constructors_with_annotated_parameter", 1)
 			}
 		}
 		shape = append(shape, s+")")
@@ -805,13 +850,15 @@ func checkProjectCounts(o *run.Outcome, p *evalgen.Project, witness map[string]i
 	for _, ds := range full {
 		for _, fn := range ds.Functions {
 			caller := ds.Package + "." + ds.NodeName + "." + fn.Name
-			declared = append(declared, caller)
+			if !fn.IsConstructor {
+				declared = append(declared, caller) // a constructor is a caller here, never a counted callee
+			}
 			for _, cl := range fn.FunctionCalls {
 				callee := cl.Package + "." + cl.NodeName + "." + cl.FunctionName
 				if cl.FunctionName == "" {
 					callee = cl.Package + "." + cl.NodeName
 				}
-				records = append(records, oracle.EvalCallRecord{Caller: caller, Callee: callee, Line: cl.Position.StartLine, Col: cl.Position.StartLinePosition})
+				records = append(records, oracle.EvalCallRecord{Caller: caller, Callee: callee, Line: cl.Position.StartLine, Col: cl.Position.StartLinePosition, InCtor: fn.IsConstructor})
 			}
 		}
 	}
@@ -834,9 +881,19 @@ func checkProjectCounts(o *run.Outcome, p *evalgen.Project, witness map[string]i
 			o.Count("project_recorded_call_sites_in_same_line_groups", n)
 		}
 	}
+	for _, rc := range records {
+		if rc.InCtor && isDecl[rc.Callee] {
+			o.Count("project_recorded_call_sites_inside_constructors", 1)
+		}
+	}
 	planted := map[string]int{}
 	for _, cl := range p.Classes {
-		for _, m := range cl.Methods {
+		members := cl.Methods
+		if cl.Ctor != nil {
+			members = append([]*evalgen.Method{cl.Ctor}, cl.Methods...)
+			o.Count("project_planted_call_sites_inside_constructors", len(cl.Ctor.Calls))
+		}
+		for _, m := range members {
 			o.Count("project_planted_same_line_call_lines", m.SameLineCalls)
 			for _, pc := range m.Calls {
 				planted[cl.Pkg+"."+cl.Name+"."+pc.Callee]++
